@@ -49,6 +49,13 @@ package store
 //@   modifies nothing
 //@   ensures refs: result == a.rwRef.v
 
+//@ func dataSetRdb.Left
+//@   arith int
+//@   properties C05 C08
+//@   requires nonnil: r != nil
+//@   modifies nothing
+//@   ensures field: result == r.left
+
 // ---- reopening: segments separated from the newest data by a hole are discarded (C08) -------
 //@ func dataSet.TruncateGap
 //@   arith int
